@@ -699,6 +699,25 @@ func (c *CEnv) call(e *Expr) *CVal {
 			return &CVal{T: rv.Tup[k].T}
 		}
 		return &CVal{T: rv.T}
+	case "visited":
+		// visited(m, k): key k has been produced by the (latest) range loop over map m
+		m := arg(0)
+		k := arg(1)
+		for i := len(ex.rangeIters) - 1; i >= 0; i-- {
+			ri := ex.rangeIters[i]
+			if ri.m == m.T {
+				comp, cs := V.rangeComp(ri.mt)
+				return &CVal{T: Select(Select(ex.heapGet(c.st, comp, cs), ri.it), k.T)}
+			}
+		}
+		c.err("visited(): no range loop over this map")
+	case "heap":
+		// heap(Comp): the current value of a heap component (to make ghost functions state dependent)
+		comps := ex.compsOfSpec(typeArg(e.Args[0]), c)
+		if len(comps) != 1 {
+			c.err("heap(): component spec must denote exactly one component")
+		}
+		return &CVal{T: ex.heapGet(c.st, comps[0], ex.allComps[comps[0]])}
 	case "slice":
 		return &CVal{T: MkSlice(arg(0).T, arg(1).T, arg(2).T, arg(3).T)}
 	case "ptr":
